@@ -61,6 +61,7 @@ type OPConfig struct {
 	Router     string // "A" = op.Provider (chi router with legacy handlers), "B" = op.RegisterLegacyServer
 	Issuer     string // e.g. https://op.sim
 	IssuerMode string // "static" (default), "host", "forwarded"
+	IssuerPath string
 	Config     *op.Config
 	Caps       Caps
 	Options    []op.Option
@@ -82,9 +83,9 @@ func BuildOP(store *Store, cfg OPConfig) (*OPNode, error) {
 	var issuerFn func(bool) (op.IssuerFromRequest, error)
 	switch cfg.IssuerMode {
 	case "host":
-		issuerFn = op.IssuerFromHost("")
+		issuerFn = op.IssuerFromHost(cfg.IssuerPath)
 	case "forwarded":
-		issuerFn = op.IssuerFromForwardedOrHost("")
+		issuerFn = op.IssuerFromForwardedOrHost(cfg.IssuerPath)
 	default:
 		issuerFn = op.StaticIssuer(cfg.Issuer)
 	}
@@ -149,7 +150,7 @@ func (n *OPNode) login(w http.ResponseWriter, r *http.Request, callback func(con
 	}
 	issuer := n.Config.Issuer
 	if n.Config.IssuerMode == "host" || n.Config.IssuerMode == "forwarded" {
-		issuer = "https://" + r.Host
+		issuer = "https://" + r.Host + n.Config.IssuerPath
 	}
 	http.Redirect(w, r, n.Provider.AuthorizationEndpoint().Absolute(issuer)+"/callback?id="+id, http.StatusFound)
 }
